@@ -391,6 +391,21 @@ def check_unit_once(name, unit, tier, contract_only=()):
     if unlisted:
         res["undecided"].append({"why": "assumption scan: unlisted trust-introducing construct(s)", "hits": unlisted})
     res["clauses"], res["clauses_per_fn"] = count_clauses(gen, info)
+    if tier == "thorough" and not res["violations"] and not res["undecided"]:
+        # stability probe: the same queries with 60 % of the resource limit; an obligation that flips is reported in the
+        # evidence as unstable (it does not change the verdict)
+        low = run_verus(gen, ["--rlimit", str(max(5, int(int(rlimit) * 0.6)))])
+        lj = low["json"] or {}
+        flips = []
+        try:
+            for m in lj["times-ms"]["smt"]["smt-run-module-times"]:
+                for f in m["function-breakdown"]:
+                    if not f["success"]:
+                        flips.append(f["function"])
+        except Exception:
+            pass
+        res["stability"] = {"rlimit": max(5, int(int(rlimit) * 0.6)), "verified": (lj.get("verification-results") or {}).get("verified"),
+                            "unstable_functions": flips}
     if res["violations"]:
         res["status"] = "violation"
     elif res["undecided"]:
